@@ -30,6 +30,7 @@ Definition enc_hout (h : hout) : list N :=
   | HWhoAreYou na n => 3 :: fst na :: snd na :: enc_nonce n
   | HRequestFailed r e => [4; r; e]
   | HUnverifiable e a i => 5 :: enc_enr e ++ [a; i]
+  | HExpiredSessions l => 6 :: N.of_nat (length l) :: flat_map (fun na => [fst na; snd na]) l
   end.
 
 Definition events_of (l : list output) : list hout :=
@@ -99,10 +100,12 @@ Fixpoint check_all (ks : list hcase) : list mismatch :=
 
 (* compact constructors for the case files *)
 Definition E (i s : N) (a4 a6 : option N) : enr := {| e_id := i; e_seq := s; e_ip4 := a4; e_ip6 := a6 |}.
-Definition C (i a : N) (e : option enr) : contact := {| c_id := i; c_addr := a; c_enr := e |}.
+Definition C (i a : N) (e : option enr) : contact := {| c_id := i; c_addr := a; c_enr := e; c_ed := false |}.
+(* a contact whose public key is an Ed25519 key *)
+Definition Ced (i a : N) (e : option enr) : contact := {| c_id := i; c_addr := a; c_enr := e; c_ed := true |}.
 Definition Ky (eph st cd ida idb : N) (half : bool) : key := mk_key eph st cd ida idb half.
 Definition D (pk : list (N * N * N * N)) (rid : list N) : draws := {| d_pk := pk; d_rid := rid; d_rev := [] |}.
-Definition Cfg (loc : N) (e : enr) (retries timeout : N) (listen : list N) (cap : N) (grid : N)
+Definition Cfg (loc : N) (e : enr) (retries timeout : N) (listen : list N) (cap : N) (ttl : N) (grid : N)
   (f1 f2a f2b f6 : bool) : config :=
   {| cfg_local := loc; cfg_enr := e; cfg_retries := retries; cfg_timeout := timeout; cfg_listen := listen;
-     cfg_capacity := N.to_nat cap; cfg_grid := grid; fix_d1 := f1; fix_d2a := f2a; fix_d2b := f2b; fix_d6 := f6 |}.
+     cfg_capacity := N.to_nat cap; cfg_session_ttl := ttl; cfg_clock := 0; cfg_grid := grid; fix_d1 := f1; fix_d2a := f2a; fix_d2b := f2b; fix_d6 := f6 |}.
